@@ -481,3 +481,13 @@ PROPS['C11']['units'] = ['backend', 'backend_small', 'itermod']
 PROPS['C09']['units'] = ['backend_small', 'backend', 'itermod']
 PROPS['C11']['trusted'] = PROPS['C11']['trusted'] + ['SignalsInfo::wait / Forever::next are four-arm matches over the proved poll_pending / poll_signal with the proved has_signals as callback; that composition is by reading']
 PROPS['C09']['trusted'] = PROPS['C09']['trusted'] + ['SignalsInfo::wait / Forever::next compose poll_pending / poll_signal / has_signals by a four-arm match (by reading)']
+
+UNITS['lemma_rcu'] = dict(name='lemma_rcu', engine='verus', module='verus_unit', entry='run_lemma', source='/verif/verus/l_rcu.rs', obligations=['C01.L-RCU'], min_verified=5)
+obl('C01.L-RCU', 'composition lemma over C01.R-ORDER / R-SLOT / R-DEC / S-ORDER / W-ZERO / S-FREE-ONCE', 'transition system whose steps are those trace contracts (any number of readers, any slot choice, SC interleaving, counter abstracted by the set of announced readers): in every reachable state no guard refers to a released snapshot and the current pointer is not released (inductive invariant, machine-checked)')
+PROPS['C01']['units'] = ['half_lock', 'registry', 'lemma_rcu']
+PROPS['C01']['trusted'] = L('A1', 'A2', 'A7', 'A9', 'A10') + ['the lemma L-RCU is machine-checked (Verus) at the level of the contracts; that the step relations of the lemma are exactly the contracts Kani proves is by reading (A8 narrowed to this link)', 'the reader counter is abstracted by the set of announced readers (inc/dec pairing proved: C01.R-SLOT, C01.R-DEC)']
+
+UNITS['lemma_pipe'] = dict(name='lemma_pipe', engine='verus', module='verus_unit', entry='run_lemma', source='/verif/verus/l_pipe.rs', obligations=['C09.L-PIPE'], min_verified=5)
+obl('C09.L-PIPE', 'composition lemma over C09.STORE-THEN-WAKE / DRAIN-THEN-SCAN / NO-DRAIN-AFTER-SCAN / SCAN-ALL / C10.CLEAR-ATOMIC / C09.HAS-SIGNALS', 'transition system of any number of deliveries and one consumer (blocking read, drain, scan): the consumer is never blocked while a slot is marked unless a byte is in the pipe or the marking delivery has not written its byte yet (inductive invariant, machine-checked)')
+PROPS['C09']['units'] = ['backend_small', 'backend', 'itermod', 'lemma_pipe']
+PROPS['C09']['trusted'] = [t for t in PROPS['C09']['trusted'] if 'L-PIPE' not in t] + ['the safety half of the property (never parked with an unreported signal and nothing outstanding) is the machine-checked lemma L-PIPE over the proved ordering contracts; that its steps are those contracts is by reading; "obtains it at least once" additionally needs fairness of the consumer loop (not decidable here)']
